@@ -1,3 +1,3 @@
 SPECIFICATION Spec
-INVARIANT Verdict
+INVARIANTS Verdict CoInv
 CHECK_DEADLOCK FALSE
